@@ -481,31 +481,43 @@ pub uninterp spec fn reload_frames() -> Seq<Frame>;
 pub fn read_sync_stub(store: &Store, last_id: Option<&Scru128Id>, limit: Option<usize>, context_id: Option<Scru128Id>) -> (v: Vec<Frame>)
     ensures v@ == reload_frames(),
 { unimplemented!() }
+#[verifier::external_body] pub struct GcReceiver { _p: () }
+impl Clone for Store { #[verifier::external_body] fn clone(&self) -> (r: Store) ensures r == *self { unimplemented!() } }
+// spawn_gc_worker as Store::new sees it: starts the collector thread (its arms: gc_head_arm / gc_remove_arm below); no effect on the store by itself
+#[verifier::external_body]
+pub fn spawn_gc_worker(Tracked(st): Tracked<&mut St>, gc_rx: GcReceiver, store: Store) ensures *final(st) == *old(st) { unimplemented!() }
 //@@ slice file=src/store/mod.rs fn=new impl=Store name=new_reload_loop
-//@@ from: for frame in store.read_sync(
-//@@ through_block
+//@@ from: let store = Store {
+//@@ rest_of_fn_after_stmt
 //@@ rewrite: store.read_sync( ==> ! read_sync_stub(&store,
+//@@ after_all: spawn_gc_worker( ==> Tracked(st),
 //@@ for_name: for frame in
 //@@ loop_spec: for frame in
     invariant st.parts == old(st).parts, it.index@ <= reload_frames().len(),
         st.contexts == reload_ctx(old(st).contexts, reload_frames().take(it.index@ as int)), //# store.new.reload_registers_ctx_frames
+        forall|i: int| old(st).log.len() <= i < st.log.len() ==> #[trigger] st.log[i] is CtxInsert, //# store.new.opens_without_writes_or_collector_tasks
+        old(st).log.len() <= st.log.len(),
 //@@ loop_top: for frame in
     proof {
         assert(reload_frames().take(it.index@ as int + 1).drop_last() =~= reload_frames().take(it.index@ as int));
         assert(reload_frames().take(it.index@ as int + 1).last() == frame);
     }
+//@@ before_stmt?: spawn_gc_worker(
+    proof { assert(reload_frames().take(reload_frames().len() as int) =~= reload_frames()); }
 //@@ header
 #[verifier::loop_isolation(false)]
-fn new_reload_loop(store: Store, Tracked(st): Tracked<&mut St>)
+fn new_reload_loop(store: Store, gc_rx: GcReceiver, Tracked(st): Tracked<&mut St>) -> (r: Store)
     ensures
         // after open: exactly the ids of the xs.context frames the zero-context read returned are registered on top
         // of the zero context (C07); the stored data is not touched
         final(st).parts == old(st).parts,
         final(st).contexts == reload_ctx(old(st).contexts, reload_frames()), //# store.new.reload_registers_ctx_frames
+        // opening a store writes nothing and queues nothing for the collector: whatever an earlier run left undone is not "redone"
+        // from guesses (C08: no frame is removed before its time because of a restart)
+        forall|i: int| old(st).log.len() <= i < final(st).log.len() ==> #[trigger] final(st).log[i] is CtxInsert, //# store.new.opens_without_writes_or_collector_tasks
 {
     proof { assert(reload_frames().take(0) =~= Seq::<Frame>::empty()); }
 //@@ epilogue
-    proof { assert(reload_frames().take(reload_frames().len() as int) =~= reload_frames()); }
 }
 //@@ end
 
